@@ -1,7 +1,7 @@
 """C03 (capital / O&M roll-up), and the Economics.Calculate-level clauses of C04 (cash-flow assembly, payback) and
 C16 (price padding, PTC duration, ITC / grants / fees) - all as postconditions of the real Economics.Calculate.
 
-Post-state only; every Valid/Provided flag is a free Boolean, end-use x plant type are enumerated (65 snapshots the reader accepts, of
+Post-state only; every Valid/Provided flag is a free Boolean, end-use x plant type are enumerated (51 runnable combinations, snapshots of
 the real classes), component correlations are whatever expression the code computes ('the components').  Callees
 are used through their contracts (BuildPTCModel, BuildPricingModel, CalculateRevenue, CalculateCarbonRevenue,
 CalculateFinancialPerformance, CalculateLCOELCOHLCOC, the well-cost helpers)."""
@@ -102,9 +102,12 @@ class EconomicsCalculate(Contract):
         out = []
         for e in (1, 2, 31, 32, 41, 42, 51, 52):
             for p in range(1, 10):
-                if p == 7 and e != 2:
-                    # unreachable: Model.read_parameters raises AttributeError (CalculateDHDemand on a power plant
-                    # object) for district heating with a non-heat end-use, so Calculate is never entered
+                if p in (5, 6, 7) and e != 2:
+                    # not runnable: for a non-heat end-use Model builds a POWER plant object whatever the plant type says;
+                    # district heating then makes Model.read_parameters raise AttributeError (CalculateDHDemand), and
+                    # the chiller / heat-pump branches of Economics.Calculate read attributes that object does not have
+                    # (replayed on the real program: the run fails with ZeroDivisionError / 'Failed to write the output
+                    # file') - an input-validation hole outside the listed properties, noted in DESIGN.md
                     continue
                 out.append((f"enduse={e},plant={p}", {"_enduse": enum_by_int(EndUseOptions, e),
                                                        "_plant": enum_by_int(PlantType, p)}))
@@ -118,7 +121,7 @@ class EconomicsCalculate(Contract):
         if tier == "thorough":
             return cfgs
         # quick tier: one representative per behaviour class of Economics.Calculate (end-use family x plant branch);
-        # the thorough tier enumerates all 65 end-use x plant-type configurations the reader accepts
+        # the thorough tier enumerates all 51 end-use x plant-type configurations that run
         return [(l, c) for l, c in cfgs if (c["_enduse"].int_value, c["_plant"].int_value) in self.QUICK]
 
     def ensure_filter(self, pid):
